@@ -23,7 +23,7 @@ class GroupPopulation(Population):
         result = GroupPopulation(self.entity, self.members)
         result.simulation = simulation
         result._holders = {
-            variable: holder.clone(self) for (variable, holder) in self._holders.items()
+            variable: holder.clone(result) for (variable, holder) in self._holders.items()
         }
         result.count = self.count
         result.ids = self.ids
